@@ -52,7 +52,7 @@ func zeroMask(b []byte) []byte {
 func TestC11(t *testing.T) {
 	r := NewReporter(t)
 	defer r.Done()
-	r.Rule("full product of directory-name case x nesting x extension case x key placement {none, adjacent, REDKEY, both (different keys), malformed adjacent, malformed REDKEY} x watermark {none, encrypted, decrypted} x file length around 0xF70..0x1070 x {read, write}; every layout read sequentially and positionally across the watermark borders, and again with every underlying Read capped at {1000, 7} (thorough: 2047, 1000, 16, 7, 1) bytes; key files changed between opens on one serving filesystem (all ordered pairs of placements); two connections opening images with different embedded keys / a key file / a plain file concurrently: all schedules with <= 2 (thorough 3) preemptions over connection and leaf filesystem operations, each stream equal to the stream of the script run alone; oracle = decision table written from the statement selecting one of {identity, redump decrypt, 3k3y decrypt+mask, mask}; distinct by layout")
+	r.Rule("full product of directory-name case x nesting x extension case x key placement {none, adjacent, REDKEY, both (different keys), malformed adjacent, malformed REDKEY, a same-named key directly in REDKEY for an image in a subdirectory} x watermark {none, encrypted, decrypted} x file length around 0xF70..0x1070 x {read, write}; every layout read sequentially and positionally across the watermark borders, and again with every underlying Read capped at {1000, 7} (thorough: 2047, 1000, 16, 7, 1) bytes; key files changed between opens on one serving filesystem (all ordered pairs of placements); two connections opening images with different embedded keys / a key file / a plain file concurrently: all schedules with <= 2 (thorough 3) preemptions over connection and leaf filesystem operations, each stream equal to the stream of the script run alone; oracle = decision table written from the statement selecting one of {identity, redump decrypt, 3k3y decrypt+mask, mask}; distinct by layout")
 	root := filepath.Join(scratchBase(), sprintf("verifh-c11-%d", os.Getpid()), "root")
 	defer os.RemoveAll(filepath.Dir(root))
 	tables := [][]uint32{{0, 2, 4, 5}, {0, 1, 4, 5}} // sector 3 encrypted / sectors 2-3 encrypted (tail of the 3k3y area is ciphertext on disk)
@@ -62,7 +62,10 @@ func TestC11(t *testing.T) {
 	for _, dn := range []string{"PS3ISO", "ps3iso", "Ps3Iso", "GAMES"} {
 		for pos := 0; pos < 3; pos++ {
 			for _, ext := range []string{".iso", ".ISO", ".Iso", ".bin"} {
-				for _, ks := range []string{"none", "adjacent", "redkey", "both", "adjbad", "redbad"} {
+				for _, ks := range []string{"none", "adjacent", "redkey", "both", "adjbad", "redbad", "redflat"} {
+					if ks == "redflat" && pos != 1 {
+						continue // a key of the same base name directly in REDKEY while the image lies in a subdirectory of PS3ISO: not the parallel place
+					}
 					for _, wm := range []string{"none", "enc", "dec"} {
 						for _, ln := range lens {
 							for _, wr := range []bool{false, true} {
@@ -193,6 +196,8 @@ func c11Run(r *Reporter, root string, l c11Layout, pairs []uint32, k1, k2, kEmb 
 		wkey(adjP, k1, true)
 	case "redbad":
 		wkey(redP, k2, true)
+	case "redflat":
+		wkey("/REDKEY/g.dkey", k2, false) // decoy: belongs to /PS3ISO/g.iso, not to /PS3ISO/s/g.iso
 	}
 	// ---- decision table (from the statement) ----
 	type cand struct {
@@ -202,7 +207,7 @@ func c11Run(r *Reporter, root string, l c11Layout, pairs []uint32, k1, k2, kEmb 
 	var admissible []cand
 	failOK := false
 	identity := cand{"identity", disk}
-	keyApplies := isIso && below && l.Key != "none"
+	keyApplies := isIso && below && l.Key != "none" && l.Key != "redflat"
 	switch {
 	case l.Write:
 		admissible = []cand{identity}
